@@ -68,6 +68,25 @@ func VerifHostmapFields(h *HostInfo) (addrs []netip.Addr, local, remote uint32, 
 	return h.vpnAddrs, h.localIndexId, h.remoteIndexId, relayIdxs
 }
 
+// VerifHostmapRelayState returns copies of the three parts of h.relayState (relays, relayForByAddr, relayForByIdx).
+func VerifHostmapRelayState(h *HostInfo) (relaysTo []netip.Addr, byAddr map[netip.Addr]Relay, byIdx map[uint32]Relay) {
+	h.relayState.RLock()
+	defer h.relayState.RUnlock()
+	relaysTo = append(relaysTo, h.relayState.relays...)
+	byAddr = map[netip.Addr]Relay{}
+	byIdx = map[uint32]Relay{}
+	for k, v := range h.relayState.relayForByAddr {
+		byAddr[k] = *v
+	}
+	for k, v := range h.relayState.relayForByIdx {
+		byIdx[k] = *v
+	}
+	return
+}
+
+// VerifHostmapInsertRelayTo is what continueHandshake does for a handshake that arrived through a relay.
+func VerifHostmapInsertRelayTo(h *HostInfo, relay netip.Addr) { h.relayState.InsertRelayTo(relay) }
+
 func VerifGenerateIndex(l *slog.Logger) (uint32, error) { return generateIndex(l) }
 
 // VerifHostmapPending returns the pending handshake for addr, if any, and whether its stage 0 packet (and so its index) was built.
@@ -109,4 +128,16 @@ func (v *VerifHostmap) VerifHostmapPendingMaps() (vpnIps map[netip.Addr]*HostInf
 		indexes[k] = hh.hostinfo
 	}
 	return
+}
+
+// VerifHostmapPendingReady returns, for every pending handshake, whether its stage 0 packet (and so its index) was built.
+func (v *VerifHostmap) VerifHostmapPendingReady() map[*HostInfo]bool {
+	out := map[*HostInfo]bool{}
+	for _, hh := range v.HS.vpnIps {
+		out[hh.hostinfo] = hh.ready
+	}
+	for _, hh := range v.HS.indexes {
+		out[hh.hostinfo] = hh.ready
+	}
+	return out
 }
